@@ -63,7 +63,8 @@ def plan(tier, seed):
         shards.append({"name": "gen%d" % i, "kind": "gen", "shard": i, "cases": 14 if q else 90, "maxrings": 4 if q else 5, "maxops": 150})
     shards.append({"name": "pairs", "kind": "pairs", "shard": 0, "cases": 6 if q else 36})
     # the test reactor: one settings combination per shard (loading costs ~2 s)
-    for i, (s, t) in enumerate([("gridplate", True), ("two", True), ("none", False), ("gridplate", False)] if q else COMBOS):
+    trc = [("gridplate", True), ("two", True), ("none", False), ("gridplate", False), ("two", False), ("none", True)]
+    for i, (s, t) in enumerate([trc[(k + seed) % 6] for k in range(4)] if q else trc):
         shards.append({"name": "tr-%s-%s" % (s, "track" if t else "notrack"), "kind": "testreactor", "sbf": s, "track": t,
                        "cases": 3 if q else 14, "maxops": 120 if q else 150})
     return shards
